@@ -6,6 +6,7 @@ SPEC = {
     "corr_name": "GqlTyping.Parse (convert, detect_cycles, detect_conflicts, flatten, prepare + visit counts) vs graphql.Parse / Flatten / PrepareQuery on graphql-go's real AST",
     "coq_modules": ["GqlTyping.Check15"],
     "harness_timeout": {"quick": 600, "thorough": 3000},
+    "search": {"n": 4000, "timeout": 600},
     "trusted_base": [
         "Coq 8.16.1 kernel and vm_compute (no native_compute); Print Assumptions: closed under the global context",
         "hand-written model coq/theories/GqlTyping/Parse.v of graphql/parser.go (valueToJson, argsToJson, parseDirectives, parseSelectionSet, detectCyclesAndUnusedFragments, detectConflicts, Parse, Flatten) and of the traversal of executor.go PrepareQuery; GqlTyping/Conn.v (one run of one request on a websocket connection); GqlTyping/OneShot.v (one-shot handler + rerunner start-up) - tied to the code by the correspondence check (Parse/Flatten/visit counts) and, for Conn and OneShot, by the oracle scripts only",
